@@ -110,6 +110,38 @@ func keyOf(k combo, label string, small int64) (kyber.Scalar, kyber.Point) {
 func runBLS(c *vf.Check, k combo) {
 	pk := "C09/bls/" + k.name()
 	sch := k.bls()
+	// one scheme object, one message buffer refilled in place between calls (same length): nothing may be remembered
+	// about the previous content
+	c.Case(fmt.Sprintf("bls %s: message buffer reused in place", k.name()), pk, func(x *vf.Ctx) {
+		priv, pub := keyOf(k, "r1", 0)
+		buf := []byte("message number one")
+		sig1, err := sch.Sign(priv, buf)
+		if err != nil {
+			x.Failf(pk+"/sign", "Sign: %v", err)
+			return
+		}
+		if err := sch.Verify(pub, buf, sig1); err != nil {
+			x.Failf(pk+"/honest-rejected", "honest signature rejected: %v", err)
+			return
+		}
+		copy(buf, "message number two")
+		c.Eval(3)
+		if sch.Verify(pub, buf, sig1) == nil {
+			x.Failf(pk+"/stale-message-accepted", "%s: after the caller's message buffer was refilled with another message of the same length, the signature on the old content still verifies", k.name())
+		}
+		sig2, err := sch.Sign(priv, buf)
+		if err != nil {
+			x.Failf(pk+"/sign", "Sign: %v", err)
+			return
+		}
+		want, _ := k.bls().Sign(priv, []byte("message number two"))
+		if !bytes.Equal(sig2, want) {
+			x.Failf(pk+"/stale-message-signed", "%s: Sign on a refilled message buffer does not sign its current content", k.name())
+		}
+		if err := k.bls().Verify(pub, []byte("message number two"), sig2); err != nil {
+			x.Failf(pk+"/stale-message-signed", "%s: the signature made on a refilled buffer does not verify for its content: %v", k.name(), err)
+		}
+	})
 	// a family of 400 short messages under one key: the hash-to-group candidates with rare shapes (coordinates with
 	// leading zero bytes, several rejected candidates) occur with probability 2^-7 .. 2^-8 per message
 	for blk := 0; blk < 400; blk += 100 {
